@@ -174,6 +174,7 @@ class _Gen:
         self.spec.notes['qual2uid'] = {}
         self.exports: Dict[int, List[Tuple[str, int, str]]] = {}     # mid -> [(name, uid, kind)] top-level public definitions
         self.reexported: set = set()
+        self.imported_classes: Dict[int, List[Tuple[str, int]]] = {}
 
     def new_uid(self) -> int:
         self.uid += 1
@@ -333,8 +334,8 @@ class _Gen:
                 a.add(c[1])
                 a |= anc.get(c[1], set())
             anc[uid] = a
-        elif r.random() < .2:
-            it.bases = [r.choice(['Exception', 'ValueError', 'object', 'dict', 'KeyError', 'Exception'])]
+        elif r.random() < .3:
+            it.bases = [r.choice(['Exception', 'ValueError', 'object', 'dict', 'KeyError', 'Exception', 'LookupError', 'OSError'])]
             it.base_uids = [None]
         it.doc = self.doc(f'class {name}', refs)
         qual = (scope + '.' if scope else '') + name
@@ -359,6 +360,10 @@ class _Gen:
                 it.members.append(Item(kind='dup', members=[dup], name=mem.name, uid=mem.uid))
             elif self.f.rebind and mem.kind == 'var' and r.random() < .3:
                 it.members.append(Item(kind='dup', members=[self.make_dup(mem, True)], name=mem.name, uid=mem.uid))
+        if self.f.main_blocks and r.random() < .08:
+            # a main guard in a class body: what it defines is not bound when the module is imported
+            hu = self.new_uid()
+            it.members.append(Item(kind='main', members=[Item(kind='raw', text=f'def script_only{hu}(self): pass\nSCRIPT_ONLY{hu} = 1')]))
         if self.f.overrides:
             for fam in ('ov1', 'ov2'):
                 k = r.random()
@@ -470,6 +475,7 @@ class _Gen:
             t1, t2 = f'{r.choice(["Section", "RST part", "rst"])} s{r.randrange(10**5):05d}', f'Other part s{r.randrange(10**5):05d}'
             m.doc += f'\n\n{t1}\n{"=" * len(t1)}\n\nText of the section, see `{t2}`_ and `{t1}`_.\n\n{t2}\n{"=" * len(t2)}\n\nMore text, back to `{t1}`_.'
         visible: List[Tuple[str, Optional[int]]] = []       # class expressions usable as bases here
+        star_passed: List[Tuple[str, int]] = []              # public class names a star-imported module had imported itself
         refs: List[str] = []
         local_names: Dict[str, Tuple[str, Any]] = {}
         earlier = [x for x in s.mods if not x.is_pkg and 0 <= x.order < m.order and self.exports.get(x.mid) and x.name.isidentifier()]
@@ -478,6 +484,8 @@ class _Gen:
             exp = self.exports[src.mid]
             path = self.rel_or_abs(m.mid, src.mid)
             form = r.choice(['from', 'from', 'from-as', 'import', 'import-as', 'from-mod', 'star'] if f.aliases else ['from', 'import'])
+            if f.star and not f.reexports and self.imported_classes.get(src.mid) and not s.notes.get(('all', src.mid)) and r.random() < .5:
+                form = 'star'       # the source module imported classes itself: a star import passes them on
             if form == 'star' and not f.star:
                 form = 'from'
             if form in ('from', 'from-as'):
@@ -495,6 +503,7 @@ class _Gen:
                 for ln, _, uid in binds:
                     if s.defs[uid][2] == 'class':
                         visible.append((ln, uid))
+                        self.imported_classes.setdefault(m.mid, []).append((ln, uid))
                     refs.append(ln)
                     # sibling-module re-exporter: this module lists the imported name in its own __all__
                     if f.reexports and r.random() < .25 and uid not in self.reexported and not s.notes.get(('all', src.mid)) \
@@ -508,6 +517,12 @@ class _Gen:
                 for (n, uid, kind) in exp:
                     if not n.startswith('_') and kind == 'class' and s.notes.get(('all', src.mid)) is None:
                         visible.append((n, uid))
+                # a module without __all__ passes on the public names it imported itself
+                if s.notes.get(('all', src.mid)) is None and not f.reexports:
+                    for (n, uid) in self.imported_classes.get(src.mid, []):
+                        if not n.startswith('_') and all(v[0] != n for v in visible):
+                            visible.append((n, uid))
+                            star_passed.append((n, uid))
             elif form in ('import', 'import-as'):
                 absname = s.modname(src.mid)
                 if form == 'import-as':
@@ -553,6 +568,14 @@ class _Gen:
         exports: List[Tuple[str, int, str]] = []
         deferred: List[Item] = []
         self.cur_defs: List[str] = []
+        for (n, uid) in star_passed[:2]:
+            # a class derived from a name that reached this module through two imports (the second one a star import)
+            d = self.make_class(m.mid, '', [(n, uid)], refs)
+            d.bases, d.base_uids = [n], [uid]
+            visible.append((d.name, d.uid))
+            refs.append(d.name)
+            exports.append((d.name, d.uid, 'class'))
+            items.append(d)
         for _ in range(ndefs):
             k = r.random()
             if k < .45:
@@ -691,7 +714,13 @@ class _Gen:
                     exports.append((cname, cu, 'class'))
         if f.main_blocks and r.random() < .3:
             hu = self.new_uid()
-            items.append(Item(kind='main', members=[Item(kind='raw', text=f'class Hidden{hu}: pass'), Item(kind='raw', text=f'def hidden{hu}(): pass')]))
+            guard = Item(kind='main', members=[Item(kind='raw', text=f'class Hidden{hu}: pass'), Item(kind='raw', text=f'def hidden{hu}(): pass')])
+            if exports and r.random() < .5:
+                # the guarded block also defines names the module really has, differently
+                n0 = r.choice(exports)[0]
+                guard.members.append(Item(kind='raw', text=f'def {n0}(*args):\n    """Version of the script."""\n{n0}_only_as_script = "s"'))
+            # ... at the top of the module, or inside a block that is taken
+            items.append(guard if r.random() < .6 else Item(kind='block', block=r.choice(['if', 'try', 'with', 'for']), members=[guard]))
         if f.main_blocks and r.random() < .3:
             hu = self.new_uid()
             items.append(Item(kind='raw', text=f'def outer{hu}():\n    class Local{hu}: pass\n    def local{hu}(): pass\n    return Local{hu}, local{hu}',
